@@ -16,24 +16,33 @@ import (
 )
 
 type world struct {
-	c           *rig.Ctx
-	m           *rig.Machine
-	rom         []byte
-	vram        [0x2000]byte
-	cram        [0x2000]byte
-	wram        [0x2000]byte
-	ramOn       bool
-	bank        int
-	lcdToggleAt int
+	c            *rig.Ctx
+	m            *rig.Machine
+	rom          []byte
+	vram         [0x2000]byte
+	cram         [0x2000]byte
+	wram         [0x2000]byte
+	ramOn        bool
+	bank         int
+	lcdToggleAt  int
+	bankSwitchAt int // -1 = none: cycle at which the guest selects another ROM bank mid-transfer
+	newBank      int
 }
+
+var worlds int
 
 func newWorld(c *rig.Ctx, r *rig.Rng, lcdOn bool) *world {
 	rom := rig.BlankROM(0x03, 1, 2) // MBC1 + RAM, 4 ROM banks, 8 KiB RAM
 	copy(rom, r.Bytes(len(rom)))
 	rom[0x147], rom[0x148], rom[0x149] = 0x03, 1, 2
+	worlds++
+	clockCart := worlds%3 == 2
+	if clockCart {
+		rom[0x147] = 0x10 // MBC3 + clock + RAM: same banking registers for what is used here
+	}
 	m := rig.MustNew(rom, rig.Opts{})
 	m.Quiet()
-	w := &world{c: c, m: m, rom: rom, bank: 1, lcdToggleAt: -1}
+	w := &world{c: c, m: m, rom: rom, bank: 1, lcdToggleAt: -1, bankSwitchAt: -1}
 	copy(w.vram[:], r.Bytes(0x2000))
 	copy(w.cram[:], r.Bytes(0x2000))
 	copy(w.wram[:], r.Bytes(0x2000))
@@ -50,6 +59,17 @@ func newWorld(c *rig.Ctx, r *rig.Rng, lcdOn bool) *world {
 	}
 	w.bank = 1 + r.Intn(3)
 	m.Mem.Write(0x2000, uint8(w.bank))
+	if clockCart {
+		// the cartridge's clock is halted (or not): no business of the transfer's
+		m.Mem.Write(0x0000, 0x0a)
+		m.Mem.Write(0x4000, 0x0c)
+		m.Mem.Write(0xa000, uint8(r.Intn(2))<<6)
+		m.Mem.Write(0x4000, 0x00)
+		if !w.ramOn {
+			m.Mem.Write(0x0000, 0x00)
+		}
+		c.Count("worlds_with_clock_cartridge", 1)
+	}
 	// OAM starts with known garbage different from FF
 	for i := 0; i < 160; i++ {
 		m.Mem.Write(0xfe00+uint16(i), 0x5a^uint8(i))
@@ -128,6 +148,7 @@ func (w *world) transfer(r *rig.Rng, page uint8, restartAt int, page2 uint8, mod
 	c := w.c
 	m := w.m
 	var expect [160]uint8
+	var skip [160]bool
 	for i := range expect {
 		expect[i] = w.src(page, i)
 	}
@@ -160,6 +181,24 @@ func (w *world) transfer(r *rig.Rng, page uint8, restartAt int, page2 uint8, mod
 			w.lcdToggleAt = -1
 			c.Count("lcd_switched_during_transfer", 1)
 		}
+		if cyc-1 == w.bankSwitchAt && cur >= 0x40 && cur < 0x80 {
+			// another ROM bank is selected while bytes of the banked area are being copied: each
+			// byte comes from the bank mapped when it is copied (nominally i+2 cycles after the
+			// start; bytes within three cycles of the switch are not judged)
+			m.Mem.Write(0x2000, uint8(w.newBank))
+			for i := range expect {
+				d := (i + 2) - (sinceStart + 1)
+				switch {
+				case d > 3:
+					expect[i] = w.rom[w.newBank*0x4000+int(cur)<<8+i-0x4000]
+				case d >= -3:
+					skip[i] = true
+				}
+			}
+			w.bank = w.newBank
+			w.bankSwitchAt = -1
+			c.Count("bank_switches_during_transfer", 1)
+		}
 		if cyc-1 == restartAt && restartAt >= 0 {
 			m.Mem.Write(0xff46, page2)
 			cur = page2
@@ -167,6 +206,7 @@ func (w *world) transfer(r *rig.Rng, page uint8, restartAt int, page2 uint8, mod
 			done = false
 			for i := range expect {
 				expect[i] = w.src(page2, i)
+				skip[i] = false
 			}
 			mods = nil
 			restartAt = -1
@@ -219,6 +259,9 @@ func (w *world) transfer(r *rig.Rng, page uint8, restartAt int, page2 uint8, mod
 	snap := m.OAM.XSnapshot()
 	for i := 0; i < 160; i++ {
 		g := m.Mem.Read(0xfe00 + uint16(i))
+		if skip[i] {
+			continue
+		}
 		if g != expect[i] || snap[i] != expect[i] {
 			c.Violate("dma-contents-"+pageClass(cur), fmt.Sprintf("after the transfer from page %02X (%s): OAM[%02X] reads %02X (array %02X), source byte was %02X", cur, pageClass(cur), i, g, snap[i], expect[i]),
 				map[string]any{"page": cur, "index": i})
@@ -239,7 +282,7 @@ func (w *world) transfer(r *rig.Rng, page uint8, restartAt int, page2 uint8, mod
 }
 
 func run(c *rig.Ctx) {
-	c.Require("transfers", "restarts", "source_bytes_modified_mid_transfer", "oam_reads_during_transfers", "pages_echo", "pages_cartram_disabled", "transfers_lcd_on", "lcd_switched_during_transfer")
+	c.Require("transfers", "restarts", "source_bytes_modified_mid_transfer", "oam_reads_during_transfers", "pages_echo", "pages_cartram_disabled", "transfers_lcd_on", "lcd_switched_during_transfer", "bank_switches_during_transfer", "worlds_with_clock_cartridge")
 	// (1) every source page 00-F1
 	c.Part("pages", 0xf2*2, func(i int64, r *rig.Rng) {
 		page := uint8(i / 2)
@@ -247,6 +290,10 @@ func run(c *rig.Ctx) {
 		w := newWorld(c, r, lcdOn)
 		if r.Chance(1, 3) {
 			w.lcdToggleAt = r.Intn(165)
+		}
+		if page >= 0x40 && page < 0x80 && i%4 < 2 {
+			w.bankSwitchAt = 4 + r.Intn(150)
+			w.newBank = 1 + (w.bank+r.Intn(2))%3
 		}
 		if !w.transfer(r, page, -1, 0, i%4 >= 2) {
 			return
